@@ -488,3 +488,88 @@ class Roles:
             return None
         r = join(*[sub.role(v) for v in rets])
         return None if r == MIX else r
+
+
+# ------------------------------------------------------------------------------------------------
+# buffered accumulation through fancy indexing (shared by C04-R12 and offered to C01)
+# ------------------------------------------------------------------------------------------------
+
+_INDEX_ARRAY_CALLS = {"ravel", "flatten", "arange", "nonzero", "flatnonzero", "where", "unique", "asarray", "array", "astype", "tolist", "list",
+                      "argsort", "searchsorted", "repeat", "tile", "concatenate", "digitize"}
+
+
+def index_arrayness(ctx, f, e, depth=0):
+    """True: `e` is positively an ARRAY of positions (may repeat a position); False: positively one scalar position; None: unknown."""
+    from engine.dataflow import assigned_value
+    if depth > 4:
+        return None
+    if isinstance(e, ast.Constant):
+        return False
+    if isinstance(e, (ast.List, ast.ListComp, ast.GeneratorExp)):
+        return True
+    if isinstance(e, ast.Slice):
+        return None                      # a plain slice never repeats a position
+    if isinstance(e, ast.Subscript):
+        if isinstance(e.slice, ast.Slice):
+            return index_arrayness(ctx, f, e.value, depth + 1)
+        return None
+    if isinstance(e, ast.Call):
+        cn = call_name(e)
+        if cn in ("int", "len") and not isinstance(e.func, ast.Attribute):
+            return False
+        if cn in _INDEX_ARRAY_CALLS:
+            return True
+        return None
+    if isinstance(e, ast.Name) and getattr(e, "_parent", None) is not None:
+        defs = ctx.rd(f).defs_reaching(e)
+        if not defs:
+            return None
+        kinds = []
+        for d in defs:
+            if isinstance(d, (ast.For, ast.AsyncFor)):
+                kinds.append(False)                              # one element per iteration
+            elif isinstance(d, (ast.Assign, ast.AnnAssign)):
+                v = assigned_value(d, e.id)
+                if v is not None:
+                    kinds.append(index_arrayness(ctx, f, v, depth + 1))
+                elif isinstance(d, ast.Assign) and isinstance(d.value, ast.Call) and call_name(d.value) == "unique" \
+                        and any(k.arg in ("return_inverse", "return_index") for k in d.value.keywords):
+                    kinds.append(True)                           # uniq, inverse = np.unique(x, return_inverse=True)
+                else:
+                    kinds.append(None)
+            else:
+                kinds.append(None)
+        if all(k is True for k in kinds):
+            return True
+        if all(k is False for k in kinds):
+            return False
+        return None
+    return None
+
+
+def buffered_fancy_accumulations(ctx, f):
+    """[(statement, index expr)] for `A[<index arrays>] += v` / `-=`: numpy evaluates the right-hand side once per DISTINCT position
+    (the read-modify-write is buffered), so contributions that address the same position twice are applied only once - unlike a loop,
+    np.add.at or bincount.  Only statements whose index is positively an array of positions are returned."""
+    out = []
+    for st in walk_shallow(f.node):
+        if isinstance(st, ast.AugAssign) and isinstance(st.op, (ast.Add, ast.Sub)) and isinstance(st.target, ast.Subscript):
+            idx = st.target.slice
+            elts = idx.elts if isinstance(idx, ast.Tuple) else [idx]
+            for x in elts:
+                if index_arrayness(ctx, f, x) is True:
+                    out.append((st, x))
+                    break
+    return out
+
+
+def accumulation_sites(ctx, f):
+    """all element-wise accumulations into a subscripted array in f: [('augassign'|'add.at', node)]"""
+    out = []
+    for st in walk_shallow(f.node):
+        if isinstance(st, ast.AugAssign) and isinstance(st.op, (ast.Add, ast.Sub)) and isinstance(st.target, ast.Subscript):
+            out.append(("augassign", st))
+        if isinstance(st, ast.Call) and call_name(st) == "at" and isinstance(st.func, ast.Attribute) and isinstance(st.func.value, ast.Attribute) \
+                and st.func.value.attr in ("add", "subtract"):
+            out.append(("add.at", st))
+    return out
